@@ -32,7 +32,10 @@ GENERIC = (
     "unrelated coins held by the router; a withdraw hook relayed by a pool asset token; TransferFrom-based direct cw20 swaps; "
     "anything keyed on block height or time; an empty whitelist read as 'anyone'; a check skipped for token-first pairs; the "
     "minimum-receive assertion skipped when an up-front quote clears it; the pair keeping the last unit of a reserve; page size 0; "
-    "slippage captured for the factory when both swap limits are given"
+    "slippage captured for the factory when both swap limits are given; a zero-commission fast path; swap() picking the pool side "
+    "with if/else only; refunds collected with take_while; the guard given gross instead of net return; the chain-level admin "
+    "accepted as owner; serde through a borrowed &str (JSON escapes); hand-written multi-limb division; the factory's Pair query "
+    "answering in the caller's order; message order used where pool order is meant"
 )
 
 
